@@ -7,6 +7,9 @@ package interp
 import (
 	"fmt"
 	"go/types"
+	"unsafe"
+
+	"golang.org/x/tools/go/ssa"
 
 	"verif/engine/sym"
 )
@@ -29,6 +32,44 @@ type byteView struct {
 	off    int // byte offset of view[0] in back
 	n      int // number of view elements
 	extent int // bytes available in back from offset 0
+}
+
+// addrToUnsafe converts a typed pointer to unsafe.Pointer, recovering the
+// backing elements when the pointer is &slice[k] or &array[k].
+func (i *interpreter) addrToUnsafe(fr *frame, instr *ssa.Convert) value {
+	elem := instr.X.Type().Underlying().(*types.Pointer).Elem()
+	x := fr.get(instr.X)
+	p, ok := x.(*value)
+	if !ok {
+		unsupported("unsafe.Pointer(%T)", x)
+	}
+	if p == nil {
+		return upointer{}
+	}
+	if ia, ok := instr.X.(*ssa.IndexAddr); ok {
+		base := fr.get(ia.X)
+		idx, isConc := fr.get(ia.Index).(int)
+		if !isConc {
+			if _, isSym := fr.get(ia.Index).(*sym.Term); !isSym {
+				idx = int(asInt64(fr.get(ia.Index)))
+				isConc = true
+			}
+		}
+		if isConc {
+			switch b := base.(type) {
+			case []value:
+				if idx >= 0 && idx < len(b) && &b[idx] == p {
+					return upointer{cell: p, elem: elem, back: b[idx:len(b):len(b)]}
+				}
+			case *value:
+				if a, ok := (*b).(array); ok && idx >= 0 && idx < len(a) && &a[idx] == p {
+					return upointer{cell: p, elem: elem, back: []value(a)[idx:]}
+				}
+			}
+		}
+	}
+	// a single addressable cell
+	return upointer{cell: p, elem: elem, back: unsafe.Slice(p, 1)}
 }
 
 func toUnsafePointer(i *interpreter, x value, elem types.Type) value {
